@@ -6,6 +6,9 @@
      [k |-> "msg", ch |-> << [pos, data] ... >>,        the STATP as built by the peer
       applied |-> << [pos, data] ... >>,                installs the handler task performed
       acks |-> << seq ... >>]                           STATQ datagrams seen for it
+     [k |-> "early", ch, acks]                           a STATP that arrived during the handshake (before the
+                                                          first full block): acknowledged; what it leaves in the
+                                                          handler must not come back with a later message
      [k |-> "silent", pos, v]                            unreported change of the spa block
      [k |-> "refresh", off, data |-> <<bytes>>]         an install performed by a get()
      [k |-> "got", off, len, ok]                         a refresh call returned (ok = it reported success)
@@ -37,6 +40,12 @@ TMsg == /\ More /\ E.k = "msg"
         /\ pseq' = E.acks[1] /\ lastAck' = E.acks[1]
         /\ acks' = acks + 1 /\ msgs' = msgs + 1 /\ steps' = steps + 1
         /\ Step
+TEarly == /\ More /\ E.k = "early"
+          /\ Len(E.acks) = 1 /\ E.acks[1] \in 1..191
+          /\ changes' = LeftOver(E.ch)
+          /\ pseq' = E.acks[1] /\ lastAck' = E.acks[1]
+          /\ acks' = acks + 1 /\ msgs' = msgs + 1 /\ steps' = steps + 1
+          /\ UNCHANGED <<spa, cli, ref>> /\ Step
 TSilent == /\ More /\ E.k = "silent"
            /\ spa' = [spa EXCEPT ![E.pos] = E.v] /\ steps' = steps + 1
            /\ UNCHANGED <<cli, ref, changes, pseq, lastAck, acks, msgs>> /\ Step
@@ -56,7 +65,7 @@ TFinal == /\ More /\ E.k = "final"
           /\ \A p \in Pos : E.block[p + 1] = cli[p]
           /\ UNCHANGED vars /\ Step
 
-TNext == TMsg \/ TSilent \/ TRefresh \/ TGot \/ TFinal
+TNext == TMsg \/ TEarly \/ TSilent \/ TRefresh \/ TGot \/ TFinal
 TSpec == TInit /\ [][TNext]_tvars
 
 Track == /\ TKTrack(tid, l, l > Len(Ev))
